@@ -144,8 +144,9 @@ Definition t4 (basin : bdd) (t : round) : bdd :=
                 (rim basin (tz t)))))
        (vsel (fun i v => Nat.eqb (rh v) i) (snd (fst t))).
 
+(* rho_1 of the repaired code (finding F3): from the EMPTY basin over all of zk *)
 Definition R1 (zk : list bdd) : bdd :=
-  fst (fold_left (fun p z => (bor (fst p) (t1 (snd p) z), z)) (tl zk) (bfalse, hd bfalse zk)).
+  fst (fold_left (fun p z => (bor (fst p) (t1 (snd p) z), z)) zk (bfalse, bfalse)).
 
 Definition Rn (tn : bdd -> round -> bdd) (rounds : list round) : bdd :=
   fst (fold_left (fun p t => (bor (fst p) (tn (snd p) t), tz t)) rounds (bfalse, bfalse)).
@@ -168,12 +169,12 @@ Theorem rabin_action_alt zk yki xkijr :
 Proof.
   set (rounds := combine (combine zk yki) xkijr).
   unfold rabin_action, rabin_action_k. cbv beta zeta. fold rounds.
-  match goal with |- context [fold_left ?f (tl zk) ?a] =>
-    set (F1 := f); set (a1 := a) end.
   match goal with |- context [fold_left ?f rounds ?a] =>
     set (F2 := f); set (a2 := a) end.
-  assert (E1 : fold_left F1 (tl zk) a1 =
-               fold_left (fun p z => (bor (fst p) (t1 (snd p) z), z)) (tl zk) a1).
+  match goal with |- context [fold_left ?f zk ?a] =>
+    set (F1 := f); set (a1 := a) end.
+  assert (E1 : fold_left F1 zk a1 =
+               fold_left (fun p z => (bor (fst p) (t1 (snd p) z), z)) zk a1).
   { apply fold_left_ext. intros [r b] z. reflexivity. }
   set (G2 := fun (p : bdd * bdd * bdd * bdd) (t : round) =>
     (bor (fst (fst (fst p))) (t2 (snd p) t), bor (snd (fst (fst p))) (t3 (snd p) t),
@@ -212,18 +213,19 @@ Proof.
   specialize (P2 rounds a2). specialize (P3 rounds a2). specialize (P4 rounds a2).
   unfold a2 in P2, P3, P4. cbn [fst snd] in P2, P3, P4. fold a2 in P2, P3, P4.
   rewrite <- P2, <- P3, <- P4. fold a1.
-  destruct (fold_left _ (tl zk) a1) as [rho_1 b1].
+  destruct (fold_left _ zk a1) as [rho_1 b1].
   destruct (fold_left G2 rounds a2) as [[[rho_2 rho_3] rho_4] b2].
   cbn [fst snd]. reflexivity.
 Qed.
 
 (* ---- membership ----------------------------------------------------------- *)
-Lemma R1_member zk z0 l1 z l2 v :
-  zk = (z0 :: l1) ++ z :: l2 -> t1 (last (z0 :: l1) bfalse) z v = true -> R1 zk v = true.
+(* every level, level 0 included (l1 = [], previous basin = the empty set) *)
+Lemma R1_member zk l1 z l2 v :
+  zk = l1 ++ z :: l2 -> t1 (last l1 bfalse) z v = true -> R1 zk v = true.
 Proof.
-  intros Hz Ht. unfold R1. rewrite Hz. cbn [app tl hd].
+  intros Hz Ht. unfold R1. rewrite Hz.
   apply (thread_member nc nx nyE t1 (fun z => z)).
-  rewrite map_id. rewrite last_cons_def in Ht. exact Ht.
+  rewrite map_id. exact Ht.
 Qed.
 
 Lemma Rn_member tn (rounds : list round) T1 t T2 v :
